@@ -128,8 +128,12 @@ S1Membership(inputs, openIn, beam) ==
 XNumOn(e, y) == e.bot[1] * (e.bot[2] - e.top[2]) + (e.top[1] - e.bot[1]) * (e.bot[2] - y)
 XDenOn(e)    == e.bot[2] - e.top[2]
 LeqXOn(a, b, y, slack) == XNumOn(a, y) * XDenOn(b) <= (XNumOn(b, y) + slack * XDenOn(b)) * XDenOn(a)
+\* (two edges that cross within the first unit above the scan-line are already kept in the order of the beam's
+\*  interior: the order may be that of the line one unit further up instead)
 S2Order(beam) ==
-  \A i \in 1..(Len(beam.ael) - 1) : LeqXOn(AsEdge(beam.ael[i]), AsEdge(beam.ael[i + 1]), beam.y, 2)
+  \A i \in 1..(Len(beam.ael) - 1) :
+     \/ LeqXOn(AsEdge(beam.ael[i]), AsEdge(beam.ael[i + 1]), beam.y, 2)
+     \/ LeqXOn(AsEdge(beam.ael[i]), AsEdge(beam.ael[i + 1]), beam.y - 1, 2)
 
 S3Winding(fr, beam) ==
   LET ael == [i \in 1..Len(beam.ael) |-> AsEdge(beam.ael[i])] IN
